@@ -239,6 +239,10 @@ def gen_base(rng, want='strong', family=None, max_tries=400, **kw):
             sig, conds = conj_consequent_base(rng)
         else:
             sig, conds = weak_shape(rng)
+        if conds and len(conds) < 8 and rng.random() < 0.12:
+            # the same conditional stated twice, spelled identically (never changes the consistency class)
+            conds = list(conds)
+            conds.insert(rng.randrange(len(conds) + 1), rng.choice(conds))
         if want == 'any':
             return sig, conds, fam
         cls, _, _ = classify(sig, conds)
